@@ -27,11 +27,20 @@ def hex (b : Bytes) : String :=
   if b.isEmpty then "-" else
   String.ofList (b.foldr (fun x acc => hexNibble (x / 16) :: hexNibble (x % 16) :: acc) [])
 
-abbrev DBS := Spec.DB Bytes Bytes
-abbrev ItemS := Bytes × Spec.Item Bytes
+/-- values are opaque to the specification: the driver keeps them as canonical tokens (hex, or
+`z<len>:<hh>` for long uniform values) -/
+abbrev Val := String
+
+def vtok (b : Bytes) : String :=
+  match b with
+  | [] => "-"
+  | x :: _ => if b.length ≥ 64 && b.all (· == x) then s!"z{b.length}:{String.ofList [hexNibble (x / 16), hexNibble (x % 16)]}" else hex b
+
+abbrev DBS := Spec.DB Bytes Val
+abbrev ItemS := Bytes × Spec.Item Val
 
 def fmtItem : ItemS → String
-  | (k, .val v) => s!"K:{hex k}:{hex v}"
+  | (k, .val v) => s!"K:{hex k}:{v}"
   | (k, .bkt) => s!"B:{hex k}"
 
 def fmtList (l : List String) : String := "[" ++ ",".intercalate l ++ "]"
@@ -121,6 +130,9 @@ def stepOp (s : St) (f : List String) : Step :=
   | some "drop" => ⟨s.dropTx (num 1), ["ok"]⟩
   | some "dbcheck" => ⟨s, ["ok"]⟩
   | some "file" => ⟨s, []⟩
+  | some "flstate" => ⟨s, []⟩
+  | some "readers" => ⟨s, []⟩
+  | some "tree" => ⟨s, []⟩
   | some "fhash" =>
     -- C06: between two commits nothing may change the file's bytes
     match s.lastHash with
@@ -186,11 +198,11 @@ def stepOp (s : St) (f : List String) : Step :=
           else if h.orphan then ⟨s, []⟩
           else if !h.alive then ⟨s, ["panic:deleted"]⟩
           else
-            let (r, db') := Spec.put tx.db h.path (unhex (str 3)) (unhex (str 4))
+            let (r, db') := Spec.put tx.db h.path (unhex (str 3)) (str 4)
             match r with
             | .error e => ⟨s, [fmtErr e]⟩
             | .ok none => ⟨s.setTx { tx with db := db' }, ["ok:none"]⟩
-            | .ok (some (k, v)) => ⟨s.setTx { tx with db := db' }, [s!"ok:K:{hex k}:{hex v}"]⟩
+            | .ok (some (k, v)) => ⟨s.setTx { tx with db := db' }, [s!"ok:K:{hex k}:{v}"]⟩
         | "del" =>
           if !tx.writable then ⟨s, ["err:ReadOnlyTx"]⟩
           else if h.orphan then ⟨s, []⟩
@@ -199,7 +211,7 @@ def stepOp (s : St) (f : List String) : Step :=
             let (r, db') := Spec.delete tx.db h.path (unhex (str 3))
             match r with
             | .error e => ⟨s, [fmtErr e]⟩
-            | .ok (k, v) => ⟨s.setTx { tx with db := db' }, [s!"ok:K:{hex k}:{hex v}"]⟩
+            | .ok (k, v) => ⟨s.setTx { tx with db := db' }, [s!"ok:K:{hex k}:{v}"]⟩
         | "get" =>
           ⟨s, deadOr h fun _ =>
             match Spec.get tx.db h.path (unhex (str 3)) with
